@@ -1647,6 +1647,7 @@ func runC18(ctx *Ctx) {
 	runC18NearMiss(ctx)
 	runC18Irregular(ctx)
 	runC18IrregularValues(ctx)
+	runC18D18b(ctx) // slice d18b (c18_d18b.go)
 	ctx.res.Exhaustive = true
 	ctx.res.Scope = fmt.Sprintf("every integer width/sign (10 types) x %d boundary numbers (2^k, k in {0,7,8,15,16,31,32,63,64}, both signs, +-1, +-0.5, huge, infinite, -0, low precision); "+
 		"float32/float64 x %d boundary numbers (overflow thresholds and neighbours, subnormal halves, double-rounding ties, infinities); %d fixed probes x every target type of the family (%d types)",
